@@ -1,4 +1,10 @@
-(* C15 - Operators follow Sass precedence and associativity. *)
+(* C15 - Operators follow Sass precedence and associativity.
+   Property theorems only; proofs live in Proofs/C15.v.
+
+   tree / pr / eval_spec : Spec/SassExpr.v (the Sass grouping, canonical text, reference value)
+   parse / canon         : Model/ExprParse.v (the layering of parser/value.rs; the tree it builds)
+   aeval / model_value   : Model/ExprEval.v  (BinOp::eval, Operator::eval)
+   known_K1..K4          : Run/C15.v (decidable classes of trees, see known_findings/C15.json) *)
 From Coq Require Import List NArith ZArith Bool.
 From RV Require Import Base.F64 Spec.SassExpr Model.ExprParse Model.ExprEval Model.ExprTie Run.C15 Proofs.C15.
 Import ListNotations.
@@ -7,3 +13,76 @@ Import ListNotations.
 Theorem C15_operators_tie : operators_tie = true.
 Proof. exact tie_ok. Qed.
 Print Assumptions C15_operators_tie.
+
+(* every tree, of any size, printed with minimal parentheses is read back as `canon t`
+   (left-nested at the three folded layers, and/or chains nested to the right),
+   unless `==`/`!=` is followed by an unparenthesised relational operand (K2) *)
+Theorem C15_parse_print : forall t, known_K2 t = false -> parse (pr t) = Some (canon t).
+Proof. exact parse_print. Qed.
+Print Assumptions C15_parse_print.
+
+(* the right-nested and/or chains have the value of Sass's grouping unless an `and`
+   precedes an `or` in a chain (K1) *)
+Theorem C15_chain_value : forall t, known_K1 t = false -> aeval (canon t) = eval_nodes t.
+Proof. exact canon_value. Qed.
+Print Assumptions C15_chain_value.
+
+(* precedence and associativity: outside K1 and K2 the value rsass computes for the text of
+   ANY tree is the value of the tree grouped as Sass prescribes (each node evaluated by
+   rsass's own operator) *)
+Theorem C15_grouping : forall t, known_K1 t = false -> known_K2 t = false ->
+  model_value t = eval_nodes t.
+Proof. exact grouping. Qed.
+Print Assumptions C15_grouping.
+
+(* rsass's operators agree with the reference on the small operand set, outside K3 / K4 *)
+Theorem C15_nodes_small : forall o a a' b b',
+  In (a, a') small_pairs -> In (b, b') small_pairs -> In o strict_ops ->
+  k3_pair o a b = false -> k4_pair o a b = false ->
+  agree_b (spec_bin o a b) (m_bin o a' b') = true.
+Proof. exact node_small. Qed.
+Print Assumptions C15_nodes_small.
+
+(* the statement as the property gives it, without exclusions *)
+Definition C15_statement : Prop := full_statement.
+
+(* main theorem: outside the four recorded classes, any tree whose subtrees have small
+   reference values evaluates as the Sass grammar prescribes *)
+Theorem C15_main : forall t,
+  known_K1 t = false -> known_K2 t = false -> known_K3 t = false -> known_K4 t = false ->
+  all_small t = true ->
+  agree_b (eval_spec t) (model_value t) = true.
+Proof. exact main. Qed.
+Print Assumptions C15_main.
+
+(* each class really contains a counterexample to the full statement (F22, F30, F31) *)
+Theorem C15_refuted_and_or : exists t, known_K1 t = true /\ agree_b (eval_spec t) (model_value t) = false.
+Proof. exact refuted_and_or. Qed.
+Print Assumptions C15_refuted_and_or.
+Theorem C15_refuted_eq_rel : exists t, known_K2 t = true /\ agree_b (eval_spec t) (model_value t) = false.
+Proof. exact refuted_eq_rel. Qed.
+Print Assumptions C15_refuted_eq_rel.
+Theorem C15_refuted_mod : exists t, known_K3 t = true /\ agree_b (eval_spec t) (model_value t) = false.
+Proof. exact refuted_mod. Qed.
+Print Assumptions C15_refuted_mod.
+Theorem C15_refuted_rel_bool : exists t, known_K4 t = true /\ agree_b (eval_spec t) (model_value t) = false.
+Proof. exact refuted_rel_bool. Qed.
+Print Assumptions C15_refuted_rel_bool.
+
+(* exhaustive: every tree with one binary operator over {0,1,2,true,false} and their
+   unary variants, and every tree with two binary operators over {0,2,true,false}, is in a
+   recorded class or has small subtrees and the reference value *)
+Theorem C15_small_trees : forall t, In t (trees1 ++ trees2) -> tree_ok t = true.
+Proof.
+  intros t H. apply in_app_or in H. destruct H as [H|H].
+  - exact (Base.ListX.sweep1 trees1 tree_ok sweep_trees1 t H).
+  - exact (Base.ListX.sweep1 trees2 tree_ok sweep_trees2 t H).
+Qed.
+Print Assumptions C15_small_trees.
+
+(* non-vacuity: a tree with three levels of precedence meeting every hypothesis of C15_main *)
+Example C15_nonvacuous :
+  let t := TBin BOr (TBin BLt (TBin BPlus (TNum 1) (TBin BMul (TNum 2) (TNum 2))) (TNum 2))
+                    (TBin BAnd (TNot (TBool false)) (TBin BEq (TBin BMod (TNum 2) (TNeg (TNum 1))) (TNum 0))) in
+  known_K1 t = false /\ known_K2 t = false /\ known_K3 t = false /\ known_K4 t = false /\ all_small t = true.
+Proof. vm_compute. auto. Qed.
